@@ -759,6 +759,9 @@ func (l *segment) advance() error {
 func (l *segment) close() error {
 	l.mu.Lock()
 	defer l.mu.Unlock()
+	if err := l.flush(); err != nil {
+		return err
+	}
 	if err := l.file.Close(); err != nil {
 		return err
 	}
